@@ -272,6 +272,38 @@ def run(c, chk):
     chk.rule('R18.9', 'no unwind path releases a context together with the search path it only borrows from the root (the failed call would leave the root with a freed list)')
     c07.searchpath_rule(c, _c08.chk_proxy(chk, {'R7.3': 'R18.9'}), sym.Explorer(c.modules, max_visits=2, mod_sets=c.mod_sets, max_paths=200000))
 
+    # ---- R18.11: a list node that could not be completed is released alone: the releaser of the search path walks the whole list
+    # behind the node it is given - a node that was already linked in front of the caller's list takes that list with it
+    chk.rule('R18.11', 'the list releaser is never called on a node whose link still leads to a list the caller keeps (a half-built node is unlinked, or not yet linked, when it is released)')
+    n11 = 0
+    bad11 = None
+    ex11 = sym.Explorer(c.modules, max_visits=2, mod_sets=c.mod_sets, max_paths=50000)
+    for f in c.confuse.funcs.values():
+        if f.name in c.unknown_funcs or f.name == 'cfg_free_searchpath' or not any(True for _ in c.deep_calls(f, 'cfg_free_searchpath')):
+            continue
+        for p in ex11.explore(f):
+            for e in p.events:
+                if not (e.kind == 'call' and e.name == 'cfg_free_searchpath' and e.args):
+                    continue
+                n11 += 1
+                node = e.args[0]
+                if node[0] != 'call':
+                    continue          # not a node made on this path: the owner's own list (cfg_free) - R7.3 / R18.9
+                link = None
+                for st in p.events[:p.events.index(e)]:
+                    if st.kind == 'store' and st.addr[0] == 'fld' and st.addr[1] == node and st.addr[3] == 'next':
+                        link = st
+                if link is not None and link.val != sym.C0 and link.val[0] == 'ld' and sym.object_of(link.val[1])[0] == 'p':
+                    bad11 = bad11 or (f, p, e, link)
+    if bad11 is not None:
+        f, p, e, link = bad11
+        chk.fail('R18.11', 'releases-callers-list:%s' % f.name, c.where(e.ins), '%s() releases the node it could not complete with cfg_free_searchpath() after it has linked the caller\'s list '
+                 'behind it (%s := %s): the releaser walks the link, every directory added earlier is freed and %s keeps pointing at the freed list (%s)'
+                 % (f.name, sym.render(link.addr), sym.render(link.val), sym.render(link.val[1]), fp.cond_text(p, 4)))
+    else:
+        chk.ok('R18.11', '%d calls of the search-path releaser' % n11, 'none on a fresh node that is linked to a list of the caller', sample=True)
+    chk.floor('R18.11 calls of the search-path releaser', n11, 1)
+
     # ---- R18.8: an include that fails for want of memory unwinds like any other refused include ----------
     from . import c08 as _c08
     chk.rule('R18.8', 'every failing exit of the include function (allocation failures included) has closed the file, released the name and left the include stack as deep as it found it')
